@@ -1321,6 +1321,42 @@ def t_clamp(it, t, min=None, max=None):
     return unary(t.as_num(), f, "real")
 
 
+@tmethod("clamp_")
+def t_clamp_inplace(it, t, min=None, max=None):
+    """in-place clamp; the bounds may be numbers or 0-d tensors"""
+    def bound(b):
+        if b is None:
+            return None
+        if isinstance(b, STensor):
+            if b.ndim != 0:
+                raise OutOfSubset("clamp_ with a non-scalar tensor bound")
+            return SV(b.elem_real(()), "real")
+        return b
+    new = t_clamp(it, t, min=bound(min), max=bound(max))
+    t.fn = new.fn
+    it.cx.log_write(("obj", id(t), None))
+    return t
+
+
+F_MEDIAN_COUNTER = itertools.count()
+
+
+@tmethod("median")
+def t_median(it, t, dim=None, **kw):
+    """torch.median without dim: one of the entries, an order statistic (a fresh value constrained to be an entry that at least
+    one entry is <= and at least one entry is >=)"""
+    if dim is not None:
+        raise OutOfSubset("median along a dimension")
+    cx = it.cx
+    mval = z3.Real(cx.fresh_name("median"))
+    idx = t.fresh_idx(cx, "md")
+    if idx:
+        cx.assume(z3.Exists(list(idx), z3.And(t.in_range(idx), t.elem_real(idx) == mval)))
+    else:
+        cx.assume(mval == t.elem_real(()))
+    return STensor((), lambda i_: mval, "real")
+
+
 @tmethod("tolist")
 def t_tolist(it, t):
     """nested python lists of the elements (python floats / ints / bools); every dimension must be a known number"""
